@@ -286,6 +286,10 @@ class Judge:
     def cell_ok(self, exp, act, f):
         c = self.c
         k = exp[0]
+        if k == "w":        # deviation models only: anything
+            return True
+        if k == "o":        # deviation models only: either of two cells
+            return self.cell_ok(exp[1], act, f) or self.cell_ok(exp[2], act, f)
         if k == "n":
             return act is None
         if k == "t":
@@ -364,6 +368,10 @@ class Judge:
 
     def show(self, cell, f):
         k = cell[0]
+        if k == "w":
+            return "*"
+        if k == "o":
+            return {"either": [self.show(cell[1], f), self.show(cell[2], f)]}
         if k == "n":
             return None
         if k in ("t", "c"):
@@ -483,6 +491,23 @@ class Node:
 
 # ---------------------------------------------------------------------------------------------------
 
+def expand_ids(kid):
+    """'F-C08-1+2+4' -> ['F-C08-1', 'F-C08-2', 'F-C08-4']"""
+    parts = kid.split("+")
+    return [parts[0]] + ["F-C08-" + x for x in parts[1:]]
+
+
+def predicate_finding(q, mst_kind, open_ids):
+    """findings whose wrong answers cannot be predicted (they depend on the layout and on the order in which series are
+    read): any divergence of a query satisfying the finding's predicate is attributed to it"""
+    if q["fldc"]["k"] != "none":
+        if mst_kind == "n" and "F-C08-7" in open_ids:
+            return "F-C08-7"
+        if q["kind"] == "agg" and q["fldc"]["f"] not in {c["f"] for c in q["calls"]} and "F-C08-6" in open_ids:
+            return "F-C08-6"
+    return ""
+
+
 def load_known():
     return {f["id"]: f for f in vlib.load_known(PROP)}
 
@@ -517,18 +542,22 @@ class Run:
         with self.lock:
             self.nq += 1
             self.by_round[label] = self.by_round.get(label, 0) + 1
-        exp = e["exp"]["desc" if desc else "asc"]
-        kexp = e["exp"]["kdesc" if desc else "kasc"]
+        dirn = "desc" if desc else "asc"
+        exp = e["exp"][dirn]
         j = Judge(conc, q)
         if err:
             d = f"query failed: {err}"
         else:
             d = j.answer_ok(exp, series, mst)
         kid = ""
-        if d and not err and e["exp"]["known"] and kexp != []:
-            # attributed to the open finding only if the answer is exactly what its deviation model predicts
-            if j.answer_ok(kexp, series, mst) == "":
-                kid = e["exp"]["known"]
+        if d and not err:
+            # attributed to an open finding only if the answer is one its deviation model predicts
+            for k in e["exp"]["known"]:
+                if all(i in self.open for i in expand_ids(k["id"])) and j.answer_ok(k[dirn], series, mst) == "":
+                    kid = k["id"]
+                    break
+            if not kid:
+                kid = predicate_finding(q, mst_kind, self.open)
         rec = None
         if d:
             rec = {"set": si, "case": ci, "config": cfg, "server": node.name, "query": text, "detail": d, "known": kid,
@@ -627,10 +656,7 @@ def report(run, sets, stats, tier, seed, t0):
     bad = [r for r in run.results if not r["known"]]
     known = [r for r in run.results if r["known"]]
     open_ids = set(run.open)
-    for r in known:
-        if r["known"] not in open_ids:
-            bad.append(r)
-    for kid in sorted({r["known"] for r in known if r["known"] in open_ids}):
+    for kid in sorted({r["known"] for r in known}):
         rs = [r for r in known if r["known"] == kid]
         pairs = {(r["set"], r["case"]) for r in rs}
         print(f"KNOWN-FINDING: property={PROP} {kid} re-observed for {len(pairs)} (data set, query) pairs in {len(rs)} runs, e.g. "
